@@ -32,12 +32,12 @@ def check(ctx):
     if len(sp) != 1:
         return
     fut = flow.strip(arg(nan, sp[0][0], sp[0][1], 0))
-    task = ctx.prog.lib_bodies.get(fut[1].split(":", 1)[1]) if fut[0] == "agg" and fut[1].startswith("coroutine:") else None
+    task, caps0 = spawned_future(ctx, nan, fut)
     ctx.check(task is not None, R, "C20/event-exhaustiveness/task", site(nb, sp[0][0]), reason="anchor-missing: watcher task body not found",
               detail="watcher task found")
     if task is None:
         return
-    caps = dict(fut[2])
+    caps = caps0
     an = ctx.an(task)
     g = ctx.graph(task)
     # the captured event stream, under whatever local name: the capture built from a kube watcher / reflector
